@@ -1167,6 +1167,24 @@ def np_level_positions(shape, lev):
     return r.ravel().tolist(), list(r.shape)
 
 
+def spec_wire(spec, top=True):
+    """Index specification in the wire format of the Lean drivers (Driver/C05, Driver/C04)."""
+    t = spec['t']
+    if t == 'tup':
+        return {'tup': [spec_wire(x, False) for x in spec['v']]}
+    if t == 'int':
+        ix = {'i': int(spec['v'])}
+    elif t == 'slice':
+        ix = {'s': [None if x is None else int(x) for x in spec['v']]}
+    elif t in ('arr', 'list'):
+        ix = {'a': [len(spec['v'])], 'd': [int(x) for x in spec['v']]}
+    elif t == 'ell':
+        ix = 'e'
+    else:
+        raise ValueError(t)
+    return {'one': ix} if top else ix
+
+
 def chain_levels(shape, chain):
     """Per-level local positions (what each level selects from the previous level's result)."""
     levels = []
